@@ -161,9 +161,12 @@ def build(job, tmpdir):
     from jellyfysh.base import factory
     from jellyfysh.base.strings import to_camel_case
     root = os.path.dirname(os.path.dirname(os.path.abspath(jellyfysh.__file__)))
-    ini = job["ini"] if os.path.isabs(job["ini"]) else os.path.join(root, "jellyfysh", job["ini"])
     config = configparser.ConfigParser()
-    assert config.read(ini), ini
+    if job.get("ini_text"):
+        config.read_string(job["ini_text"])      # harness-built configuration (same sections as the shipped files)
+    else:
+        ini = job["ini"] if os.path.isabs(job["ini"]) else os.path.join(root, "jellyfysh", job["ini"])
+        assert config.read(ini), ini
     for sec, kv in (job.get("overrides") or {}).items():
         if not config.has_section(sec):
             config.add_section(sec)
